@@ -1825,3 +1825,363 @@ func ruleScalarEnd(p *core.Program) []core.Obligation {
 	}
 	return obs
 }
+
+// ---------------------------------------------------------------------------------------------
+
+func init() {
+	register(&Rule{ID: "R-FILTERALL", Min: 1, Run: ruleFilterAll,
+		Doc: "the in-engine filter of a merged select applies every matcher to every series, with the semantics of a storage select: each call of Matcher.Matches in execution/storage is made on a matcher taken from a loop over the filter's matcher list, with the value looked up by name (Labels.Get, which yields the empty value for an absent label). A filter driven by the labels the series happens to have never applies a matcher whose label is absent, and a map keyed by label name collapses repeated names"})
+
+	mutant(Mutant{Rule: "R-FILTERALL", Name: "filter-driven-by-series-labels", File: "execution/storage/filter.go",
+		Old: "\tlbls := series.Labels()\n\tfor _, m := range f.matchers {\n\t\tif !m.Matches(lbls.Get(m.Name)) {\n\t\t\treturn false\n\t\t}\n\t}\n",
+		New: "\tfor _, l := range series.Labels() {\n\t\tfor _, m := range f.matchers {\n\t\t\tif m.Name == l.Name && !m.Matches(l.Value) {\n\t\t\t\treturn false\n\t\t\t}\n\t\t}\n\t}\n", Expect: "Matches"})
+}
+
+func ruleFilterAll(p *core.Program) []core.Obligation {
+	const rule = "R-FILTERALL"
+	var obs []core.Obligation
+	for _, fn := range p.Funcs {
+		if core.Rel(fn.Pkg.Pkg.Path()) != "execution/storage" {
+			continue
+		}
+		k := 0
+		core.EachInstr(fn, func(b *ssa.BasicBlock, i int, ins ssa.Instruction) {
+			call, ok := ins.(*ssa.Call)
+			if !ok || core.CalleeName(&call.Call) != "(*"+pkgLabels+".Matcher).Matches" || len(call.Call.Args) != 2 {
+				return
+			}
+			k++
+			key := fmt.Sprintf("%s applies a matcher #%d", core.FuncName(fn), k)
+			// the matcher: an element of a []*Matcher (range over the list), not a map lookup
+			fromList, fromMap := false, false
+			core.BackSlice(call.Call.Args[0], func(x ssa.Value) bool {
+				switch y := x.(type) {
+				case *ssa.IndexAddr:
+					if isMatcherSlice(y.X.Type()) {
+						fromList = true
+					}
+				case *ssa.Index:
+					if isMatcherSlice(y.X.Type()) {
+						fromList = true
+					}
+				case *ssa.Lookup:
+					fromMap = true
+				}
+				return true
+			})
+			// the value: result of Labels.Get
+			viaGet := false
+			core.BackSlice(call.Call.Args[1], func(x ssa.Value) bool {
+				if c, ok := x.(*ssa.Call); ok && core.CalleeName(&c.Call) == "("+pkgLabels+".Labels).Get" {
+					viaGet = true
+				}
+				return !viaGet
+			})
+			switch {
+			case fromMap || !fromList:
+				obs = append(obs, core.Ob(rule, key, p.Pos(call.Pos()), core.FuncName(fn), core.Violated, "the matcher comes from a lookup keyed by a label of the series, not from a loop over the matcher list: a matcher whose label the series does not have is never applied (a=\"x\" lets series without label a pass), and repeated label names collapse into one matcher"))
+			case !viaGet:
+				obs = append(obs, core.Ob(rule, key, p.Pos(call.Pos()), core.FuncName(fn), core.Violated, "the value handed to the matcher is not looked up with Labels.Get(name): a label absent from the series is not matched as the empty value"))
+			default:
+				obs = append(obs, core.Ob(rule, key, p.Pos(call.Pos()), core.FuncName(fn), core.Held, "matcher from the list, value by name"))
+			}
+		})
+	}
+	return obs
+}
+
+// ---------------------------------------------------------------------------------------------
+
+func init() {
+	register(&Rule{ID: "R-SORTCOPY", Min: 3, Run: ruleSortCopy,
+		Doc: "an operator never sorts in place a slice that belongs to the parsed expression (grouping labels, matching labels, matchers): every slice handed to slices.Sort / sort.Strings / sort.Slice / sort.Sort in execution/... is traced back (through parameters to the call sites) and must not originate from a field of a parser node. The select hints alias those slices and are read by the storage after the operators were built, and the expression is what the query prints"})
+
+	mutant(Mutant{Rule: "R-SORTCOPY", Name: "matching-labels-sorted-in-place", File: "execution/binary/vector.go",
+		Old: "\tgroupings := make([]string, len(matching.MatchingLabels))\n\tcopy(groupings, matching.MatchingLabels)\n\tslices.Sort(groupings)\n", New: "\tgroupings := matching.MatchingLabels\n\tslices.Sort(groupings)\n", Expect: "NewVectorOperator"})
+}
+
+func ruleSortCopy(p *core.Program) []core.Obligation {
+	const rule = "R-SORTCOPY"
+	var obs []core.Obligation
+	isSort := func(name string) bool {
+		switch name {
+		case "sort.Strings", "sort.Slice", "sort.SliceStable", "sort.Sort", "sort.Stable", "sort.Float64s", "sort.Ints":
+			return true
+		}
+		return strings.HasSuffix(name, "slices.Sort") || strings.HasSuffix(name, "slices.SortFunc") || strings.HasSuffix(name, "slices.SortStableFunc") ||
+			strings.Contains(name, "slices.Sort[") || strings.Contains(name, "slices.SortFunc[")
+	}
+	for _, fn := range p.Funcs {
+		if !hasPrefixRel(fn, "execution") {
+			continue
+		}
+		k := 0
+		core.EachInstr(fn, func(b *ssa.BasicBlock, i int, ins ssa.Instruction) {
+			call, ok := ins.(*ssa.Call)
+			if !ok || len(call.Call.Args) == 0 || !isSort(core.CalleeName(&call.Call)) {
+				return
+			}
+			k++
+			key := fmt.Sprintf("%s sorts a slice #%d", core.FuncName(fn), k)
+			origin := ""
+			seen := map[ssa.Value]bool{}
+			var trace func(v ssa.Value, depth int)
+			trace = func(v ssa.Value, depth int) {
+				core.BackSlice(v, func(x ssa.Value) bool {
+					if seen[x] || origin != "" {
+						return false
+					}
+					seen[x] = true
+					if n, f, _, ok := core.FieldRef(x); ok && n != nil && n.Obj().Pkg() != nil && n.Obj().Pkg().Path() == pkgParser {
+						origin = "parser." + n.Obj().Name() + "." + f
+						return false
+					}
+					switch y := x.(type) {
+					case *ssa.MakeSlice, *ssa.Alloc:
+						return false // freshly allocated
+					case *ssa.Call:
+						// append([]T(nil), xs...) and slices.Clone produce copies; other calls: opaque
+						return false
+					case *ssa.Parameter:
+						if depth > 0 {
+							pf := y.Parent()
+							for idx, q := range pf.Params {
+								if q != y {
+									continue
+								}
+								for _, cs := range p.CallSitesOf(pf) {
+									if cs != nil && idx < len(cs.Args) {
+										trace(cs.Args[idx], depth-1)
+									}
+								}
+							}
+						}
+						return false
+					}
+					return true
+				})
+			}
+			trace(call.Call.Args[0], 3)
+			if origin != "" {
+				obs = append(obs, core.Ob(rule, key, p.Pos(call.Pos()), core.FuncName(fn), core.Violated, "the sorted slice is "+origin+" of the parsed expression, sorted in place: the select hints built from the same slice reach the storage reordered, and the query's own expression is rewritten"))
+			} else {
+				obs = append(obs, core.Ob(rule, key, p.Pos(call.Pos()), core.FuncName(fn), core.Held, "the slice is the operator's own (allocated or copied)"))
+			}
+		})
+	}
+	return obs
+}
+
+// ---------------------------------------------------------------------------------------------
+
+func init() {
+	register(&Rule{ID: "R-MATCHGROW", Min: 2, Run: ruleMatchGrow,
+		Doc: "an optimizer gives a selector a new matcher list only by growing the list it has (append onto the selector's own LabelMatchers) or by taking over, whole, a list collected from another selector: it never assigns a list rebuilt from scratch out of a map or a filtered loop, which is how the metric-name matcher and matchers with a repeated label name get lost"})
+	register(&Rule{ID: "R-DROPEXACT", Min: 1, Run: ruleDropExact,
+		Doc: "a helper that deletes matchers from a list by label name alone is only ever asked to delete the metric name: deleting by name a matcher that was found equal to another one (name, type and value) also deletes every other matcher with that label name (foo{a=~\"x|z\", a!=\"z\"})"})
+
+	mutant(Mutant{Rule: "R-MATCHGROW", Name: "selector-gets-rebuilt-union", File: "logicalplan/propagate_selectors.go",
+		Old: "\tlhSelector.LabelMatchers = withMatchers(lhSelector.LabelMatchers, rhMatchers)\n", New: "\tlhSelector.LabelMatchers = append([]*labels.Matcher{}, rhMatchers...)\n", Expect: "propagateMatchers"})
+	mutant(Mutant{Rule: "R-DROPEXACT", Name: "equal-matcher-dropped-by-name", File: "logicalplan/merge_selects.go",
+		Old: "\t\t\t\tfilters = dropEqualMatcher(s, filters)\n", New: "\t\t\t\tfilters = dropMatcher(s.Name, filters)\n", Expect: "replaceMatchers"})
+}
+
+func isSelectorMatchersField(v ssa.Value) bool {
+	n, f, _, ok := core.FieldRef(v)
+	return ok && n != nil && f == "LabelMatchers" && n.Obj().Name() == "VectorSelector" && n.Obj().Pkg().Path() == pkgParser
+}
+
+func ruleMatchGrow(p *core.Program) []core.Obligation {
+	const rule = "R-MATCHGROW"
+	var obs []core.Obligation
+	// origin classifies where a matcher list comes from: "" = fine, otherwise the reason it is not
+	var origin func(v ssa.Value, env map[*ssa.Parameter]ssa.Value, depth int) string
+	origin = func(v ssa.Value, env map[*ssa.Parameter]ssa.Value, depth int) string {
+		if depth > 12 {
+			return "origin too deep to follow"
+		}
+		switch x := v.(type) {
+		case *ssa.Phi:
+			for _, e := range x.Edges {
+				if e == x {
+					continue
+				}
+				if r := origin(e, env, depth+1); r != "" {
+					return r
+				}
+			}
+			return ""
+		case *ssa.Slice:
+			return origin(x.X, env, depth+1)
+		case *ssa.ChangeType:
+			return origin(x.X, env, depth+1)
+		case *ssa.UnOp:
+			if x.Op == token.MUL {
+				if isSelectorMatchersField(x.X) {
+					return ""
+				}
+				if ia, ok := x.X.(*ssa.IndexAddr); ok && isListOfMatcherLists(ia.X.Type()) {
+					return ""
+				}
+				if a, ok := x.X.(*ssa.Alloc); ok {
+					// a local variable: every value stored into it
+					for _, r := range core.Referrers(a) {
+						if st, ok := r.(*ssa.Store); ok && st.Addr == a {
+							if res := origin(st.Val, env, depth+1); res != "" {
+								return res
+							}
+						}
+					}
+					return ""
+				}
+			}
+		case *ssa.Index:
+			if isListOfMatcherLists(x.X.Type()) {
+				return ""
+			}
+		case *ssa.Lookup:
+			return "" // an entry of a collection of lists
+		case *ssa.Extract:
+			if c, ok := x.Tuple.(*ssa.Call); ok {
+				return originOfCall(p, c, x.Index, env, depth, origin)
+			}
+			if _, ok := x.Tuple.(*ssa.Next); ok {
+				return "" // ranging over a collection of lists
+			}
+			if _, ok := x.Tuple.(*ssa.Lookup); ok {
+				return ""
+			}
+		case *ssa.Call:
+			if bi, ok := x.Call.Value.(*ssa.Builtin); ok && bi.Name() == "append" {
+				return origin(x.Call.Args[0], env, depth+1)
+			}
+			return originOfCall(p, x, 0, env, depth, origin)
+		case *ssa.Parameter:
+			if a, ok := env[x]; ok {
+				return origin(a, nil, depth+1)
+			}
+			return "a parameter whose callers are not followed"
+		case *ssa.MakeSlice:
+			return "a list allocated and filled from scratch (make)"
+		case *ssa.Const:
+			return "an empty list"
+		}
+		return fmt.Sprintf("a value the rule cannot trace (%T)", v)
+	}
+	for _, fn := range p.Funcs {
+		if core.Rel(fn.Pkg.Pkg.Path()) != "logicalplan" {
+			continue
+		}
+		k := 0
+		core.EachInstr(fn, func(b *ssa.BasicBlock, i int, ins ssa.Instruction) {
+			st, ok := ins.(*ssa.Store)
+			if !ok || !isSelectorMatchersField(st.Addr) {
+				return
+			}
+			k++
+			key := fmt.Sprintf("%s assigns a selector's matchers #%d", core.FuncName(fn), k)
+			if r := origin(st.Val, nil, 0); r != "" {
+				obs = append(obs, core.Ob(rule, key, p.Pos(st.Pos()), core.FuncName(fn), core.Violated, "the new list is "+r+", not the selector's own list grown by append nor a list taken over whole from another selector: matchers of the old list (the metric name, a second matcher on the same label) can be missing from it"))
+			} else {
+				obs = append(obs, core.Ob(rule, key, p.Pos(st.Pos()), core.FuncName(fn), core.Held, "grown from a selector's own list or taken over whole"))
+			}
+		})
+	}
+	return obs
+}
+
+func isListOfMatcherLists(t types.Type) bool {
+	s, ok := t.Underlying().(*types.Slice)
+	return ok && isMatcherSlice(s.Elem())
+}
+
+func originOfCall(p *core.Program, c *ssa.Call, idx int, env map[*ssa.Parameter]ssa.Value, depth int,
+	origin func(ssa.Value, map[*ssa.Parameter]ssa.Value, int) string) string {
+	callee := c.Call.StaticCallee()
+	if callee == nil || !p.InRepo(callee) || callee.Blocks == nil {
+		return "the result of a call the rule cannot follow"
+	}
+	// arguments in terms of the caller's values (already resolved through env)
+	inner := map[*ssa.Parameter]ssa.Value{}
+	for i, prm := range callee.Params {
+		if i < len(c.Call.Args) {
+			a := c.Call.Args[i]
+			if pa, ok := a.(*ssa.Parameter); ok && env != nil {
+				if v, ok := env[pa]; ok {
+					a = v
+				}
+			}
+			inner[prm] = a
+		}
+	}
+	res := ""
+	core.EachInstr(callee, func(b *ssa.BasicBlock, _ int, ins ssa.Instruction) {
+		ret, ok := ins.(*ssa.Return)
+		if !ok || b == callee.Recover || res != "" {
+			return
+		}
+		rs := core.RetResults(ret)
+		if idx < len(rs) {
+			if core.IsNilConst(rs[idx]) {
+				return // "not found" results
+			}
+			res = origin(rs[idx], inner, depth+1)
+		}
+	})
+	return res
+}
+
+func ruleDropExact(p *core.Program) []core.Obligation {
+	const rule = "R-DROPEXACT"
+	var obs []core.Obligation
+	// helpers that delete from a matcher list under a condition on Name only, keyed by a string parameter
+	for _, fn := range p.Funcs {
+		if core.Rel(fn.Pkg.Pkg.Path()) != "logicalplan" || fn.Parent() != nil {
+			continue
+		}
+		var nameParam *ssa.Parameter
+		deletes := false
+		core.EachInstr(fn, func(b *ssa.BasicBlock, i int, ins ssa.Instruction) {
+			if call, ok := ins.(*ssa.Call); ok {
+				if x, ok := shiftDelete(call); ok && isMatcherSlice(x.Type()) {
+					deletes = true
+				}
+			}
+			if bo, ok := ins.(*ssa.BinOp); ok && (bo.Op == token.EQL || bo.Op == token.NEQ) {
+				for _, side := range [][2]ssa.Value{{bo.X, bo.Y}, {bo.Y, bo.X}} {
+					if pr, ok := side[1].(*ssa.Parameter); ok {
+						if _, f, _, ok := core.FieldRef(core.Deref(side[0])); ok && f == "Name" {
+							nameParam = pr
+						}
+					}
+				}
+			}
+		})
+		if !deletes || nameParam == nil {
+			continue
+		}
+		idx := -1
+		for i, q := range fn.Params {
+			if q == nameParam {
+				idx = i
+			}
+		}
+		k := 0
+		for _, caller := range p.Funcs {
+			core.EachInstr(caller, func(b *ssa.BasicBlock, i int, ins ssa.Instruction) {
+				call, ok := ins.(*ssa.Call)
+				if !ok || call.Call.StaticCallee() != fn || idx >= len(call.Call.Args) {
+					return
+				}
+				k++
+				key := fmt.Sprintf("%s deletes matchers by name through %s #%d", core.FuncName(caller), fn.Name(), k)
+				if c, ok := call.Call.Args[idx].(*ssa.Const); ok && c.Value != nil && strings.Trim(c.Value.ExactString(), "\"") == "__name__" {
+					obs = append(obs, core.Ob(rule, key, p.Pos(call.Pos()), core.FuncName(caller), core.Held, "only the metric name is deleted by name"))
+				} else {
+					obs = append(obs, core.Ob(rule, key, p.Pos(call.Pos()), core.FuncName(caller), core.Violated, "a label name that is not the metric name is handed to a helper that deletes every matcher with that name: a second matcher on the same label is deleted along with the one that was compared"))
+				}
+			})
+		}
+	}
+	return obs
+}
